@@ -281,6 +281,102 @@ def serveConn (P : Params) (username password : Option Bytes) : Conn → List Re
     (serveOn P username password c r.hits r.header).1 ::
       serveConn P username password (serveOn P username password c r.hits r.header).2 rest
 
+/-! ### from the configuration file to the credentials a server is built with
+
+  `ServerOptions.__init__` snapshots `os.environ` into `self.environ_expansions` (`ENV_<name>`);
+  `read_config` binds `parser.expansions` to that dictionary, reads `[supervisord] environment=`
+  (expanded with a copy taken before), merges it into `self.environ_expansions`, and only then calls
+  `server_configs_from_parser(parser)`, whose `_parse_username_and_password` expands `username=` and
+  `password=` with `parser.expansions`.  The order and the aliasing are regenerated from the source. -/
+
+/-- a piece of an option value as written in the file -/
+inductive Piece
+  /-- literal text -/
+  | lit (b : Bytes)
+  /-- `%(ENV_<name>)s` -/
+  | env (name : Bytes)
+deriving DecidableEq, Repr
+
+abbrev Written := List Piece
+
+/-- a dictionary `name ↦ value`: the first binding of a name is the current one -/
+abbrev Env := List (Bytes × Bytes)
+
+/-- `d[k] = v` -/
+def dictSet (d : Env) (k v : Bytes) : Env := (k, v) :: d
+
+/-- `text % expansions`; `none` = a name is missing (KeyError → ValueError: the file is rejected) -/
+def expandWith (look : Bytes → Option Bytes) : Written → Option Bytes
+  | [] => some []
+  | .lit b :: r => (expandWith look r).map (b ++ ·)
+  | .env n :: r =>
+    match look n, expandWith look r with
+    | some v, some t => some (v ++ t)
+    | _, _ => none
+
+def expandW (d : Env) (w : Written) : Option Bytes := expandWith (fun n => d.lookup n) w
+
+/-- an `[inet_http_server]` / `[unix_http_server]` section as written (`none` = option absent) -/
+structure FileSection where
+  username : Option Written
+  password : Option Written
+deriving DecidableEq, Repr
+
+structure ConfigFile where
+  /-- the process environment when `ServerOptions()` is constructed -/
+  osenv : Env
+  /-- `[supervisord] environment=` as written, in file order (a later entry for the same name replaces an earlier one) -/
+  supenv : List (Bytes × Written)
+  servers : List FileSection
+deriving Repr
+
+def allSome {α : Type} : List (Option α) → Option (List α)
+  | [] => some []
+  | none :: _ => none
+  | some a :: rest => (allSome rest).map (a :: ·)
+
+/-- `section.environment`: every value expanded with the copy of the expansions taken before the merge
+    (the process environment only) -/
+def supervisordEnv (f : ConfigFile) : Option Env :=
+  allSome (f.supenv.map fun kw => (expandW f.osenv kw.2).map fun v => (kw.1, v))
+
+/-- `for k, v in section.environment.items(): self.environ_expansions['ENV_%s' % k] = v` -/
+def mergedExpansions (osenv se : Env) : Env := se.foldl (fun d kv => dictSet d kv.1 kv.2) osenv
+
+/-- Do the server sections see the `[supervisord]` environment?  Regenerated from `read_config`: the call
+    `server_configs_from_parser(parser)` comes after the merge loop, `parser.expansions` is the very dictionary
+    the loop fills (an alias, bound once, not a copy), and nothing else rebinds or empties it. -/
+def serverSectionsSeeSupervisordEnv : Bool :=
+  rc_servers_parsed_after_env_merge && rc_parser_shares_expansions && rc_other_expansion_writes.isEmpty
+
+/-- `parser.expansions` at the moment the server sections are parsed.  Were they parsed before the merge (or
+    from a copy), they would see the inherited process environment only — the `else` branch. -/
+def serverExpansions (osenv se : Env) : Env :=
+  if serverSectionsSeeSupervisordEnv then mergedExpansions osenv se else osenv
+
+/-- `_parse_username_and_password`: both or neither; `none` = ValueError -/
+def parseCreds (d : Env) (s : FileSection) : Option Section :=
+  match s.username, s.password with
+  | none, none => some ⟨none, none⟩
+  | some u, some p =>
+    match expandW d u, expandW d p with
+    | some u', some p' => some ⟨some u', some p'⟩
+    | _, _ => none
+  | _, _ => none
+
+/-- `read_config` as far as the server sections are concerned: `options.server_configs`; `none` = the file is
+    rejected (supervisord does not start) -/
+def readConfig (f : ConfigFile) : Option (List Section) :=
+  match supervisordEnv f with
+  | none => none
+  | some se => allSome (f.servers.map (parseCreds (serverExpansions f.osenv se)))
+
+/-- one request to the `i`-th server built from the file (`none`: file rejected, or no such server) -/
+def serveFile (P : Params) (f : ConfigFile) (i : Nat) (hits : String → Bool) (header : List Bytes) : Option Answer :=
+  match readConfig f with
+  | none => none
+  | some secs => serveAt P secs i hits header
+
 /-! ### line protocol -/
 
 def optBytes (s : String) : Option (Option Bytes) :=
@@ -289,11 +385,6 @@ def optBytes (s : String) : Option (Option Bytes) :=
   else none
 
 def reqBytes (s : String) : Option Bytes := (optBytes s).bind id
-
-def allSome {α : Type} : List (Option α) → Option (List α)
-  | [] => some []
-  | none :: _ => none
-  | some a :: rest => (allSome rest).map (a :: ·)
 
 def splitNE (s sep : String) : List String := (s.splitOn sep).filter (· ≠ "")
 
@@ -351,6 +442,48 @@ def tablesCover (t : Tables) (header : List Bytes) (wrappedHit : Bool) (stored :
         | none => true
         | some (_, p) => !(sha_prefix.isPrefixOf stored) || (t.sha.lookup p).isSome
 
+/-- `L<hex>` literal text / `V<hex>` = `%(ENV_<name>)s`, joined by `+`; `E` = empty text -/
+def pieceOf (s : String) : Option Piece :=
+  match s.toList with
+  | 'L' :: r => (bytesOfHexAux r).map Piece.lit
+  | 'V' :: r => (bytesOfHexAux r).map Piece.env
+  | _ => none
+
+def writtenOf (s : String) : Option Written :=
+  if s = "E" then some [] else allSome ((s.splitOn "+").map pieceOf)
+
+def optWrittenOf (s : String) : Option (Option Written) :=
+  if s = "N" then some none else (writtenOf s).map some
+
+/-- `name:value,…` (both `s<hex>`); `-` = empty -/
+def envOf (s : String) : Option Env :=
+  if s = "-" then some [] else
+  allSome ((s.splitOn ",").map fun it =>
+    match it.splitOn ":" with
+    | [k, v] => match reqBytes k, reqBytes v with
+      | some k, some v => some (k, v)
+      | _, _ => none
+    | _ => none)
+
+/-- `name:written,…`; `-` = no `environment=` -/
+def supOf (s : String) : Option (List (Bytes × Written)) :=
+  if s = "-" then some [] else
+  allSome ((s.splitOn ",").map fun it =>
+    match it.splitOn ":" with
+    | [k, v] => match reqBytes k, writtenOf v with
+      | some k, some v => some (k, v)
+      | _, _ => none
+    | _ => none)
+
+/-- `username/password;…` each `N` or a written text -/
+def fsecsOf (s : String) : Option (List FileSection) :=
+  allSome ((splitNE s ";").map fun it =>
+    match it.splitOn "/" with
+    | [u, p] => match optWrittenOf u, optWrittenOf p with
+      | some u, some p => some (⟨u, p⟩ : FileSection)
+      | _, _ => none
+    | _ => none)
+
 def showAnswer (a : Answer) : String :=
   (match a.status with | some n => s!"status={n}" | none => "status=-") ++
   (if a.challenge then " challenge" else "") ++
@@ -367,7 +500,9 @@ def showResp : Resp → String
 
 /-- `case auth user=<s…|N> pass=<s…|N>`;
     ops: `handle h=<line,line,…|-> t=<table items ;-separated|->`           (the auth handler alone)
-         `serve m=<handler names matching, comma separated|-> h=… t=…`       (through the dispatch loop) -/
+         `serve m=<handler names matching, comma separated|-> h=… t=…`       (through the dispatch loop)
+         `serveat i=… secs=… m=… h=… t=…`                                     (the i-th of several servers)
+         `servefile i=… os=… sup=… secs=… m=… h=… t=…`                        (the i-th server built from a configuration file) -/
 def runCase (cfg : List String) (ops : List String) : List String :=
   match (kvGet cfg "user").bind optBytes, (kvGet cfg "pass").bind optBytes with
   | some user, some pass => ops.map fun l =>
@@ -418,6 +553,28 @@ def runCase (cfg : List String) (ops : List String) : List String :=
             | none => "bad-op"
           else "bad-op"
       | _, _, _ => "bad-op"
+    | some "servefile", some hdr, some t =>
+      -- `servefile i=<index> os=<name:value,…|-> sup=<name:written,…|-> secs=<U/P;U/P;…> m=… h=… t=…`: a server built from a
+      -- configuration file; `rejected` = the file is refused
+      match kvGet ws "m", kvNat ws "i", (kvGet ws "os").bind envOf, (kvGet ws "sup").bind supOf, (kvGet ws "secs").bind fsecsOf with
+      | some m, some i, some os, some sup, some fsecs =>
+        let f : ConfigFile := ⟨os, sup, fsecs⟩
+        let ms := if m = "-" then [] else splitNE m ","
+        let hits := fun n => ms.contains n
+        match readConfig f with
+        | none => "rejected"
+        | some secs =>
+          match secs[i]? with
+          | none => "bad-op"
+          | some sec =>
+            let hit := match dispatch_order.find? hits with | some n => isWrapped sec.username n | none => false
+            let stored := (((usersFor secs i).map (·.2)).find? (fun st => sha_prefix.isPrefixOf st)).getD []
+            if tablesCover t hdr hit stored then
+              match serveFile (paramsOf t) f i hits hdr with
+              | some a => showAnswer a
+              | none => "bad-op"
+            else "bad-op"
+      | _, _, _, _, _ => "bad-op"
     | _, _, _ => "bad-op"
   | _, _ => ops.map fun _ => "bad-config"
 
